@@ -81,7 +81,7 @@ def provider_expr(d, p):
             e = 'kessoku.Async(%s)' % e        # the field reads stay synchronous; the wrapper must be harmless
         return e
     e = 'kessoku.Provide(%s)' % p['id']
-    if p.get('as_value_call'):
+    if p.get('as_value_call') and not p['requires'] and not p['fallible'] and len(p['provides']) == 1:
         # an injected value whose expression is a call: evaluated where the generated code builds the provider
         e = 'kessoku.Value(%s())' % p['id']
     binds = [a for g in p['provides'] for a in g[1:]]
